@@ -948,7 +948,11 @@ func (s *spec) Step(w *engine.World, ctx sdk.Context, mm engine.Model, ev string
 			}
 		}
 		if len(tssDue) > 0 && capacity < uint64(len(tssDue)) && uint64(nTSS) != capacity {
-			st.Violate("due-but-no-packet:nonces-available", "%d TSS tunnels due, nonce pairs for %d signings, %d packets produced", len(tssDue), capacity, nTSS)
+			fp := "due-but-no-packet:nonces-available"
+			if uint64(nTSS) > capacity {
+				fp = "packet-although-route-cannot-send:more-packets-than-nonce-pairs"
+			}
+			st.Violate(fp, "%d TSS tunnels due, nonce pairs for %d signings, %d sequence numbers taken", len(tssDue), capacity, nTSS)
 			return ctx, st
 		}
 		// ---- advance the model and verify packets, stores and the differential ----
